@@ -147,6 +147,23 @@ static void op_threads(const V &a, V &r) {
     struct mallinfo2 m1 = mallinfo2();
     r.push_back((ll) m1.uordblks - (ll) m0.uordblks); r.push_back(count);
 }
+// threadfirst : the FIRST user of the FFT in the process is a worker thread that exits; then the main thread and a second worker run
+// products (compared with the schoolbook product).  Per-thread FFT state must not be shared with, or owned by, a thread that is gone
+// (under memcheck a read of released tables is an invalid read even if the values are still there).
+static void op_threadfirst(const V &a, V &r) {
+    long bad = 0;
+    auto body = [&bad]() { const int N = 1024; IntPolynomial *A = new_IntPolynomial(N); TorusPolynomial *B = new_TorusPolynomial(N), *R = new_TorusPolynomial(N);
+        for (int i = 0; i < N; i++) { A->coefs[i] = i % 7 - 3; B->coefsT[i] = i * 2654435761u; }
+        torusPolynomialMultFFT(R, A, B);
+        for (int i = 0; i < N; i += 97) { uint32_t acc = 0; for (int j = 0; j < N; j++) { int q = i - j; uint32_t t = (uint32_t) A->coefs[j] * (uint32_t) B->coefsT[(q + N) % N]; acc += (q >= 0) ? t : 0u - t; }
+            int32_t d = (int32_t) (acc - (uint32_t) R->coefsT[i]); if (d > 2 || d < -2) bad++; }
+        delete_TorusPolynomial(R); delete_TorusPolynomial(B); delete_IntPolynomial(A); };
+    { std::thread t(body); t.join(); }
+    body();
+    { std::thread t(body); t.join(); }
+    body();
+    r.push_back(bad);
+}
 #ifdef VERIF_LEDGER
 // ledger <type> p1..p4 : 0 LweSample(n) 1 LweSample_array(m=p2,n) 2 LweKey(n) 3 TorusPolynomial(N) 4 IntPolynomial(N) 5 TLweSample(k=p2,N) 6 TLweKey(k,N)
 //   7 TGswSample(k=p2,N,l=p3) 8 TGswKey 9 LweKeySwitchKey(n,t=p2,bb=p3,nout=p4) 10 LweBootstrappingKey(n,k=p2,l=p3; t=2,bb=2) 11 TGswParams(l=p3) 12 LweParams
@@ -302,6 +319,7 @@ int main() {
         else if (op == "small") op_small(a, r);
         else if (op == "threads") op_threads(a, r);
         else if (op == "karamem") op_karamem(a, r);
+        else if (op == "threadfirst") op_threadfirst(a, r);
         else if (op == "aliases") op_aliases(a, r);
         else if (op == "arrays") op_arrays(a, r);
 #ifdef VERIF_LEDGER
